@@ -2,6 +2,7 @@ package filesys
 
 import (
 	"fmt"
+	"math"
 	"path"
 
 	"github.com/pkg/errors"
@@ -68,6 +69,10 @@ func (fs DirFs) Open(dir, fname string) File {
 }
 
 func (fs DirFs) ReadAt(f File, offset uint64, length uint64) []byte {
+	if offset > math.MaxInt64 {
+		// beyond the end of any file (pread would reject the negative offset)
+		return nil
+	}
 	p := make([]byte, length)
 	n, err := unix.Pread(f.fd(), p, int64(offset))
 	if err != nil {
